@@ -60,6 +60,16 @@ def patch_engine():
 
   core.Interp.lookup = lookup
   core.Interp._c24_lookup_patch = True
+  # kh.mval overflows (float(int) of a huge numerator) on some nlsat models: fall back to exact Fractions
+  orig_mval = kh.mval
+
+  def mval(model, x):
+    try:
+      return orig_mval(model, x)
+    except OverflowError:
+      return mvalf(model, x)
+
+  kh.mval = mval
 
 
 patch_engine()
